@@ -957,9 +957,15 @@ def cli_model_retain(run, which):
                 o = rnd.choice(ovs)
                 base = camp.add(text, o, retain=rt, filt="Any")
                 camp.add(text, o, retain=rt, model=True, filt=rnd.choice(["Any", "True"]), base=base)
+            # -m together with -v / -d: every output of the run describes the model
+            camp.add(text, rnd.choice(ovs), model=True, vars_=True, table=True, filt=rnd.choice(["Any", "True", "False"]))
+            camp.add(text, rnd.choice(ovs), model=True, dot=True, table=True, filt=rnd.choice(["Any", "True", "False"]))
         else:
             for rt in ("True", "False", "Any"):
                 camp.add(text, rnd.choice(ovs), retain=rt, filt=rnd.choice(["Any", "True", "False"]))
+            rt = rnd.choice(["True", "False"])
+            camp.add(text, rnd.choice(ovs), retain=rt, vars_=True, table=True, filt=rnd.choice(["Any", "True", "False"]))
+            camp.add(text, rnd.choice(ovs), retain=rt, dot=True, table=True, filt=rnd.choice(["Any", "True", "False"]))
     camp.execute()
     groups = camp.events()
     validate_cli_groups(run, groups, which, {"C07"} if which == "model" else {"C20"})
